@@ -15,8 +15,9 @@ Tie (every run):
     threadpool_serial.c, (c) among all configurations.
  1b. API scripts (files, sqfs_block_processor_submit_block, sync between files) and a compressor that FAILS on marked blocks
     (codec `toyf` of harness/h_c02.c) against `sqfsmodel c02 runx` (Sqfs/Model/BlockProcFail.lean): the serial-pool build must
-    equal the model of the current sync() or of the repaired one; when some block's work fails every backlog / worker count /
-    schedule must end in an error (determinism of failure).
+    equal the model of the current code (sync() ends with get_status, /repo 69db961; runx variant 1); a build that equals the
+    model of the sync() before 69db961 (variant 0) is reported as such; when some block's work fails every backlog / worker
+    count / schedule must end in an error (determinism of failure).
  1c. compressor level — harness/h_c02_comp.c: every compiled-in compressor x a seeded sample of its option space: the
     configured compressor is sqfs_copy'd into k worker copies as sqfs_block_processor_create_ex does, seeded block sequences are
     fed to the copies under seeded assignments; every result must equal a fresh compressor's result for that block alone
@@ -34,7 +35,8 @@ from checks.c09 import run_parallel, jobs
 LEVEL = "proof"
 MODULE = "Sqfs.Props.C02"
 EXTRA_THEOREMS = ("stateful_pool_is_pure", "schedule_independent_stateful", "stateful_worker_schedule_dependent",
-                  "script_schedule_independent", "failure_deterministic_partial", "failed_item_back_status_nonzero",
+                  "script_schedule_independent", "failure_deterministic_partial", "failure_backlog_independent", "healthy_run_status_zero",
+                  "failed_item_back_status_nonzero",
                   "run_eq_specPack", "threaded_eq_specPack", "threaded_readback", "threaded_directives", "tree_order_bytewise")
 REQUIRED = ["Sqfs.C02." + t for t in (
     "run_eq_spec", "backlog_independent", "run_ok", "dequeue_never_internal_error", "finish_writes_everything",
@@ -455,7 +457,7 @@ def script_level(ctx, stats, h, hs):
         bad += len(untraced)
         ctx.violation("infra:unit-trace-missing", "%d API script runs came back without the complete pool trace (dl, mtx, fifo, sub, wfail): without it a failed "
                       "callback would go unnoticed" % len(untraced), {"kind": "unit", "line": untraced[0], "serial_line": untraced[0]}, found_input=False)
-    variant_seen = {"current": 0, "repaired": 0, "either": 0}
+    variant_seen = {"before_69db961": 0, "current": 0, "either": 0}
     nfail_scripts = ndet = nmanual = 0
     for wi, w in enumerate(scripts):
         sers = [split_result(x)[0] for x in ser[wi * nm:(wi + 1) * nm]]
@@ -465,24 +467,28 @@ def script_level(ctx, stats, h, hs):
             continue
         if any(o[0] == "m" for o in w["ops"]):
             nmanual += 1
-        # (a) correspondence: the serial-pool build is the model of the current sync() or of the repaired one
+        # (a) correspondence: the serial-pool build is the model of the current code (v1: sync() returns the pool status).  A build
+        # that is the model of the sync() before 69db961 (v0) where the two differ lacks that repair: model != code, and (c)
+        # below reports the swallowed failure itself.
         for k in range(nm):
             if sers[k] == v0[k] and sers[k] == v1[k]:
                 variant_seen["either"] += 1
-            elif sers[k] == v0[k]:
-                variant_seen["current"] += 1
             elif sers[k] == v1[k]:
-                variant_seen["repaired"] += 1
+                variant_seen["current"] += 1
             else:
+                old = sers[k] == v0[k]
+                if old:
+                    variant_seen["before_69db961"] += 1
                 corr_bad += 1
                 if corr_bad <= 3:
                     ctx.violation("corr-script:" + vlib.sha(m0_lines[wi * nm + k])[:12],
-                                  "model and real block processor (serial pool) differ on an API script: real=%s model(current sync)=%s model(repaired sync)=%s" % (
-                                      sers[k][:400], v0[k][:300], v1[k][:100]),
+                                  "model and real block processor (serial pool) differ on an API script%s: real=%s model(current code)=%s model(sync before 69db961)=%s" % (
+                                      " - the build behaves like sqfs_block_processor_sync before 69db961 (no get_status at the end)" if old else "",
+                                      sers[k][:400], v1[k][:300], v0[k][:100]),
                                   {"kind": "unit-script", "model_lines": [m0_lines[wi * nm + k], m1_lines[wi * nm + k]], "harness_line": ser_lines[wi * nm + k],
                                    "model": [v0[k], v1[k]], "real": sers[k]},
-                                  found_input=(v0[k].startswith("ok ") and sers[k].startswith("err") and w["codec"] != "toyf"))
-        # does some block's work fail?  (the repaired model reports the pool status at the end of every drain; the trace of the
+                                  found_input=(v1[k].startswith("ok ") and sers[k].startswith("err") and w["codec"] != "toyf"))
+        # does some block's work fail?  (the model reports the pool status at the end of every drain; the trace of the
         # real run counts the failed callbacks)
         fails = any(int(split_result(x)[1].get("wfail", "0")) > 0 for x in ser[wi * nm:(wi + 1) * nm]) or \
             any(int(split_result(a)[1].get("wfail", "0")) > 0 for a, mt in zip(thr, meta) if mt[0] == wi)
@@ -539,10 +545,6 @@ def script_level(ctx, stats, h, hs):
                     ctx.violation("serial-backlog-script:" + vlib.sha(ser_lines[wi * nm + k])[:12],
                                   "serial-pool build: output of an API script depends on max_backlog (%d vs %d)" % (MB_X[0], MB_X[k]),
                                   {"kind": "unit-serial", "lines": [ser_lines[wi * nm], ser_lines[wi * nm + k]], "outputs": [sers[0][:2000], sers[k][:2000]]})
-    if variant_seen["current"] and variant_seen["repaired"]:
-        corr_bad += 1
-        ctx.violation("corr-script:mixed-variants", "the serial-pool build matches the model of the current sync() on some scripts and the model of the "
-                      "repaired sync() on others: %s" % variant_seen, {"kind": "unit-script-mixed", "seen": variant_seen}, found_input=False)
     stats["scripts"] = {"scripts": len(scripts), "corpus": len(corpus), "with_manual_submission": nmanual,
                         "with_sync_between_files": sum(1 for w in scripts if any(o[0] == "s" for o in w["ops"])),
                         "scripts_in_which_a_worker_callback_failed": nfail_scripts, "of_those_every_run_an_error": ndet,
@@ -809,9 +811,11 @@ def build_tools(ctx, stats):
     e = dict(os.environ)
     e.update({"LD_PRELOAD": str(lshim), "C02_LOCALE_HOSTILE": "1", "C02_LOCALE_LOG": str(ctx.scratch / "c02_locale_selftest.log"), "TZ": "UTC"})
     r = vlib.sh([str(st)], env=e, timeout=60)
-    want = "before=1 ci_before=1 locale=xx_XX.HOSTILE after=0 punct=1 ci_after=0 lowerI=253 alphaE9=1 dp=, hour=13 min=45 tz=UTC"
+    # fn=06: before setlocale fnmatch is the C locale's ("[a-z]*" does not match "Zeta"), afterwards it folds case
+    want = "before=1 ci_before=1 locale=xx_XX.HOSTILE after=0 punct=1 ci_after=0 lowerI=253 alphaE9=1 dp=, hour=13 min=45 tz=UTC fn=06"
     log = read_locale_log(ctx.scratch / "c02_locale_selftest.log")
-    if r.stdout.strip() != want or log.get("strcoll") != "3" or log.get("setlocale") != "1" or log.get("active") != "111":
+    if r.stdout.strip() != want or log.get("strcoll") != "3" or log.get("setlocale") != "1" or log.get("active") != "111" or \
+            log.get("fnmatch") != "5" or log.get("setlocale_args") != '6:"",':
         raise vlib.CheckFailure("the locale shim is not in effect: self test printed %r (want %r), log %r" % (r.stdout.strip(), want, log))
     out["localeshim"] = lshim
     stats["locale_shim_selftest"] = r.stdout.strip()
@@ -893,7 +897,33 @@ def make_inputs(ctx, rng, quick, idx):
             ti.mtime = t
             tf.addfile(ti, io.BytesIO(data))
     (d / "in.tar").write_bytes(bio.getvalue())
+    write_glob_inputs(rng, d)
     return {"dir": d, "B": B, "nfiles": len(files), "bytes": sum(len(x) for _, x in files)}
+
+
+def write_glob_inputs(rng, d):
+    """the two places where the packers hand file names to a locale-sensitive libc function (fnmatch): `glob ... -name <pattern>` lines
+    of a pack file (lib/common/src/dir_tree_iterator.c) and `[glob]` / `[glob_no_path]` lines of a sort file
+    (bin/gensquashfs/src/sort_by_file.c).  The patterns are chosen so that matching differs between the C locale and a collating /
+    case-folding one: bracket ranges over letters (`[a-z]`, `[A-Z]`, `[a-Z]` - empty in the C locale, all letters in en_US -, `[A-z]`),
+    ranges over high bytes, a character class.  In the C locale the -name patterns of the pack file partition the names (no file is
+    added twice); which line matched a file shows in its mode / uid / gid, which sort line matched it in its position and block flags.
+    Drawn from `rng` after everything else, so the other inputs of a seed are what they were."""
+    modes = ["0644", "0600", "0640", "0444"]
+    rng.shuffle(modes)
+    pack = [b"glob / * * * -type d .",
+            b"glob / 0604 5 5 -type f -name \"[a-Z]*\" .",
+            b"glob / %s * * -type f -name \"[a-z]*\" ." % modes[0].encode(),
+            b"glob / %s 1000 100 -type f -name \"[A-Z]*\" ." % modes[1].encode(),
+            b"glob / %s 0 7 -type f -name \"[!a-zA-Z]*\" ." % modes[2].encode()]
+    (d / "pack_glob.txt").write_bytes(b"\n".join(pack) + b"\n")
+    lines = [b"[glob] */[a-Z]*", b"[glob_no_path,dont_fragment] *[\xc0-\xff]*", b"[glob] a/[a-f]*", b"[glob_no_path,dont_compress] *_[x-z]*",
+             b"[glob,dont_deduplicate] */[!a-z]*", b"[glob_no_path] *[[:upper:]]", b"[glob,nosparse] [A-z]*", b"[glob] [f-i]*_[H-J]",
+             b"[glob_no_path,dont_fragment] *\xc3[\x80-\x9f]*"]
+    rng.shuffle(lines)
+    prios = sorted(rng.sample(range(-500, 500), len(lines)))
+    rng.shuffle(prios)
+    (d / "sort.txt").write_bytes(b"".join(b"%d %s\n" % (pr, ln) for pr, ln in zip(prios, lines)))
 
 
 def input_rng(seed, tier, ci):
@@ -909,6 +939,10 @@ def tool_cmd(builds, variant, flavour, inp, out, comp, extra):
     cmd = [str(builds[variant]["gensquashfs"]), "-q", "-f", "-b", str(inp["B"]), "-c", comp] + extra
     if flavour == "packdir":
         cmd += ["-D", str(d / "root")]
+    elif flavour == "packdir-sort":                 # fnmatch on the `[glob]` lines of a sort file
+        cmd += ["-D", str(d / "root"), "-S", str(d / "sort.txt")]
+    elif flavour == "globfile-sort":                # fnmatch on `glob ... -name` lines of a pack file, and on the sort file
+        cmd += ["-F", str(d / "pack_glob.txt"), "-D", str(d / "root"), "-S", str(d / "sort.txt")]
     elif flavour == "packdir-k":
         cmd += ["-D", str(d / "root"), "-k"]
     else:
@@ -1034,7 +1068,7 @@ def tool_level(ctx, stats):
     t0 = time.time()
     builds = build_tools(ctx, stats)
     ncases = 3 if quick else 6
-    flavours = ["packdir", "packfile", "tar", "packdir-k"]
+    flavours = ["packdir", "packfile", "tar", "packdir-k", "packdir-sort", "globfile-sort"]
     jobs_list = [1, 2, 3, 4, 7, 16, 64, None]
     q_list = [1, 2, 3, 10, 1000, None]
     runs = bad = 0
@@ -1186,10 +1220,29 @@ def tool_level(ctx, stats):
                 ll = read_locale_log(llog)
                 if not ll or "strcoll" not in ll:
                     loc["log_missing"] += 1
+                elif flavour in ("packdir-sort", "globfile-sort") and rc == 0 and int(ll.get("fnmatch", "0") or 0) == 0:
+                    loc["log_missing"] += 1               # the glob inputs did not reach fnmatch (or the shim no longer sees it)
                 for k, v in ll.items():
                     if v.isdigit() and k not in ("hostile", "active"):
                         loc["calls"][k] = loc["calls"].get(k, 0) + int(v)
                 loc["setlocale_args"].update(x for x in ll.get("setlocale_args", "-").split(",") if x and x != "-")
+                # a packer that selects a locale other than "C" / "POSIX" (setlocale(cat, "") takes it from LANG / LC_*) makes fnmatch, the
+                # ctype tables, strcoll, strtod ... answer by the environment: a violation whether or not this input's image changes
+                sl_bad = sorted(x for x in ll.get("setlocale_args", "-").split(",")
+                                if x and x != "-" and x.split(":", 1)[-1] not in ("NULL", "C", "POSIX"))
+                if sl_bad:
+                    loc["setlocale_violations"] = loc.get("setlocale_violations", 0) + 1
+                    bad += 1
+                    first = ("sl", Path(cmd[0]).name) not in loc
+                    loc[("sl", Path(cmd[0]).name)] = True
+                    if first: ctx.violation("tool-setlocale:" + Path(cmd[0]).name,
+                                  "%s (%s) selects a locale from the environment: setlocale/newlocale called with %s (category:locale; \"\" = take it "
+                                  "from LANG/LC_*) - from then on fnmatch (glob -name, sort file globs), the ctype tables, strcoll and the number "
+                                  "parsers answer by the caller's environment; image %s the reference image under the hostile locale shim" % (
+                                      Path(cmd[0]).name, flavour, sl_bad, "equals" if (rc == 0 and got == ref) else "DIFFERS from"),
+                                  {"kind": "tool", "seed": ctx.seed, "tier": ctx.tier, "case": ci, "flavour": flavour, "comp": comp,
+                                   "variant": "plain", "extra": lextra, "common": common, "env": lenv, "umask": 0o022, "cwd": str(ctx.scratch),
+                                   "prefix": [], "stderr": err[-1500:], "setlocale_args": sl_bad}, found_input=(rc != 0 or got != ref))
                 loc["env_names"].update(x for x in ll.get("env_names", "-").split(",") if x and x != "-")
                 if rc != 0 or got != ref:
                     loc["image_mismatches"] += 1
@@ -1296,7 +1349,11 @@ def tool_level(ctx, stats):
         "selftest": stats.get("locale_shim_selftest"), "runs_under_hostile_shim": loc["runs"], "image_mismatches": loc["image_mismatches"],
         "calls_recorded": dict(sorted(loc["calls"].items())),
         "locale_sensitive_calls_made": {k: v for k, v in sorted(loc["calls"].items()) if v > 0 and k not in ("getenv", "umask", "getcwd")},
-        "setlocale_arguments": sorted(loc["setlocale_args"]), "environment_variables_asked_for": sorted(loc["env_names"]),
+        "setlocale_arguments": sorted(loc["setlocale_args"]), "runs_in_which_a_locale_was_selected": loc.get("setlocale_violations", 0),
+        "fnmatch_calls_under_the_shim": loc["calls"].get("fnmatch", 0),
+        "glob_inputs": "flavours packdir-sort (-S sort file with [glob] / [glob_no_path] lines) and globfile-sort (pack file of `glob ... -name` "
+                       "lines + the sort file): bracket ranges [a-z] [A-Z] [a-Z] [A-z] [f-i]*_[H-J], high-byte ranges, [[:upper:]]",
+        "environment_variables_asked_for": sorted(loc["env_names"]),
         "name_heads": NAME_HEADS}
     bad += scale_cases(ctx, builds, stats)
     runs += 6
@@ -1580,7 +1637,7 @@ def run(ctx):
         "before: Sqfs.BlockProc.StatefulCodec.HistoryIndependent) are hypotheses of the theorems; zlib, liblzma, liblz4 and libzstd are "
         "third-party code: their history independence is observed on seeded samples (compressor level), not proved"],
         assumptions=["schedule_independent / jobs_independent: worker callbacks do not fail (a failing compressor is covered by "
-                     "failure_deterministic_partial and the failing-codec runs; on the unrepaired tree the failure can be swallowed: known finding)",
+                     "failure_deterministic_partial and the failing-codec runs: sync() ends with get_status since /repo 69db961; a tree without it is reported)",
                      "no allocation failure (C13)"])
 
 
@@ -1637,8 +1694,8 @@ def replay(ctx, path):
         b = split_result(vlib.sh([str(hs)], input=rp["harness_line"] + "\n", env=ctx.san_env(), timeout=600).stdout.strip())[0]
         ms = [ctx.driver(["c02"], l + "\n")[0] for l in rp["model_lines"]]
         print("real (serial pool):     ", b[:3000])
-        print("model, current sync():  ", ms[0][:3000])
-        print("model, repaired sync(): ", ms[1][:3000])
+        print("model, sync() before 69db961 (drain only):  ", ms[0][:3000])
+        print("model, current code (sync() ends with get_status): ", ms[1][:3000])
         fail = b not in ms
         print("REPRODUCED" if fail else "not reproduced")
         return 1 if fail else 0
